@@ -52,7 +52,7 @@ type c07Item struct {
 	fails bool        // json.Marshal(item) must fail
 }
 
-const c07TextFam = gen.FAscii | gen.FHTML | gen.FMD | gen.FWide | gen.FNewline | gen.FCSV | gen.FEmoji | gen.FCombining
+const c07TextFam = gen.FAscii | gen.FHTML | gen.FMD | gen.FWide | gen.FNewline | gen.FCSV | gen.FEmoji | gen.FCombining | gen.FEdge
 
 // texts of items (as opposed to header keys) may hold anything: control characters, escape sequences, NUL, invalid UTF-8
 const c07ValueFam = c07TextFam | gen.FSGR | gen.FNUL | gen.FInvalid | gen.FZero | gen.FCR
@@ -614,6 +614,9 @@ func c07Headers(r *gen.R, n int) []gen.Q {
 
 func c07Random(c *Ctx, i int, r *gen.R) {
 	n := r.Range(1, 5)
+	if r.Chance(1, 60) {
+		n = gen.Pick(r, []int{17, 33, 64, 65, 66, 70, 129, 130, 257}) // far more columns than any fixed-size per-column bookkeeping
+	}
 	s := &c07Spec{HasHeader: true, Header: c07Headers(r, n)}
 	if r.Chance(1, 3) {
 		s.HeaderKinds = make([]int, n)
@@ -635,7 +638,7 @@ func c07Random(c *Ctx, i int, r *gen.R) {
 		row := make([]c07Item, m)
 		for j := range row {
 			row[j] = c07RandomItem(r)
-			if row[j].fails && !r.Chance(1, 6) {
+			if row[j].fails && (n > 8 || !r.Chance(1, 6)) {
 				row[j] = c07Item{Desc: "string", item: "plain"}
 			}
 		}
